@@ -208,7 +208,9 @@ ParseDocW(doc, allowProps, asBuilt, cmpComment) ==
       proj == ProjectOf(doc)
       rs == [i \in DOMAIN CollectedRefs(doc) |-> Resolve(tabs, CollectedRefs(doc)[i], asBuilt)]
       \* phase 1: the first declaration (source order) that the grammar or its parse action refuses
-      P1(i) == IF doc[i].d = "table" /\ ~allowProps /\ UsesProps(doc[i]) THEN "ParseBaseException"
+      \* (d = "raw": text that is no DBML element at all)
+      P1(i) == IF doc[i].d = "raw" THEN "ParseBaseException"
+               ELSE IF doc[i].d = "table" /\ ~allowProps /\ UsesProps(doc[i]) THEN "ParseBaseException"
                ELSE IF doc[i].d = "table" /\ doc[i].cols = <<>> THEN "SyntaxError" ELSE ""
       e1 == FirstErr(Len(doc), P1)
       e2 == EnumStage(enums)
